@@ -589,13 +589,13 @@ class WebSocket:
         try:
             sock_timeout = self.sock.gettimeout()
             self.sock.settimeout(timeout)
-            start_time = time.time()
+            start_time = time.monotonic()
             self.send(struct.pack("!H", status) + reason, ABNF.OPCODE_CLOSE)
-            while timeout is None or time.time() - start_time < timeout:
+            while timeout is None or time.monotonic() - start_time < timeout:
                 try:
                     if timeout is not None:
                         # each read gets what is left of the timeout, not a new one
-                        self.sock.settimeout(timeout - (time.time() - start_time))
+                        self.sock.settimeout(timeout - (time.monotonic() - start_time))
                     frame = self.recv_frame()
                     if frame.opcode != ABNF.OPCODE_CLOSE:
                         continue
